@@ -470,7 +470,7 @@ def _isclose(a, b, *args, **kw):
 NP_FUNCS = {
     'numpy.array': _asarr, 'numpy.asarray': _asarr, 'numpy.asanyarray': _asarr,
     'numpy.zeros': _zeros, 'numpy.empty': _zeros, 'numpy.ones': _ones,
-    'numpy.zeros_like': lambda x, *a, **k: _zeros(np.shape(x)), 'numpy.empty_like': lambda x, *a, **k: _zeros(np.shape(x)),
+    'numpy.zeros_like': lambda x, *a, **k: _zeros(_like_shape(x, k)), 'numpy.empty_like': lambda x, *a, **k: _zeros(_like_shape(x, k)),
     'numpy.broadcast_to': lambda x, shape: np.broadcast_to(np.asarray(x, dtype=object), tuple(int(v) for v in shape)).copy(),
     'numpy.atleast_2d': lambda x: np.atleast_2d(np.asarray(x, dtype=object)), 'numpy.atleast_1d': lambda x: np.atleast_1d(np.asarray(x, dtype=object)),
     'numpy.float64': lambda x: x, 'numpy.int64': lambda x: x,
@@ -545,7 +545,7 @@ NP_FUNCS = {
     'numpy.divide': lambda a, b, out=None, **k: _ufunc_out(np.asarray(a, dtype=object) / np.asarray(b, dtype=object), out),
     'numpy.true_divide': lambda a, b, out=None, **k: _ufunc_out(np.asarray(a, dtype=object) / np.asarray(b, dtype=object), out),
     'numpy.power': lambda a, b, **k: np.asarray(a, dtype=object) ** b,
-    'numpy.zeros_like': lambda x, *a, **k: _zeros(np.shape(x)), 'numpy.ones_like': lambda x, *a, **k: _ones(np.shape(x)),
+    'numpy.zeros_like': lambda x, *a, **k: _zeros(_like_shape(x, k)), 'numpy.ones_like': lambda x, *a, **k: _ones(_like_shape(x, k)),
     'numpy.full_like': lambda x, v, **k: _fill(np.shape(x), v),
     'numpy.real': lambda x: vmap(sp.re, x), 'numpy.imag': lambda x: vmap(sp.im, x),
     'copy.deepcopy': lambda x: _copy(x), 'copy.copy': lambda x: _copy(x),
@@ -1978,6 +1978,17 @@ def _as_load(t):
 
 
 # ---------------------------------------------------------------- convenience
+
+def _like_shape(x, k):
+    """shape of np.*_like(x, shape=...)"""
+    for name in k:
+        if name not in ('dtype', 'shape', 'order', 'subok'):
+            raise Opaque('keyword %s of a numpy *_like constructor' % name)
+    sh = k.get('shape')
+    if sh is None:
+        return np.shape(x)
+    return tuple(int(v) for v in (sh if isinstance(sh, (tuple, list)) else [sh]))
+
 
 def _intidx(x):
     """an index array of exact integers (or decided booleans) as a numpy index array"""
